@@ -345,17 +345,17 @@ theorem attr_types_eq_declared (s : Schema) (ctx : Option Ty) (n : String) (x : 
 
 /-- **every atom of a typed value is an instance of the class of one of the decoder's prototypes**
 (`iter_atomic_values`): nothing else can come out of `get_atomic_sequence`. -/
-theorem typed_value_class (T : SType) (txt : String) (vs : List Atom)
-    (h : atomicSequence T txt = .ok vs) : ∀ a ∈ vs, ∃ b ∈ T.protos, a.cls = classOf b :=
+theorem typed_value_class (valid : SType → String → Bool) (T : SType) (txt : String) (vs : List Atom)
+    (h : atomicSequence valid T txt = .ok vs) : ∀ a ∈ vs, ∃ b ∈ T.protos, a.cls = classOf b :=
   atomicSequence_cls h
 
 /-- **typed values of an atomic type are instances of the declared type's nearest builtin and of
 all its base types** — for every builtin and every chain of restrictions over a builtin `b`
 (named or anonymous), every text.  (Full strength since fix F20c; on the pinned tree the value
 was an instance of the primitive only.) -/
-theorem typed_value_instance_of (T : SType) (b : B) (hT : atomicBase? T = some b)
-    (hb : b.isSpecial = false) (txt : String) (vs : List Atom)
-    (h : atomicSequence T txt = .ok vs) :
+theorem typed_value_instance_of (valid : SType → String → Bool) (T : SType) (b : B)
+    (hT : atomicBase? T = some b) (hb : b.isSpecial = false) (txt : String) (vs : List Atom)
+    (h : atomicSequence valid T txt = .ok vs) :
     ∀ a ∈ vs, a.cls = b ∧ ∀ B' ∈ builtinAncestors T, a.instanceOf B' = true := by
   intro a ha
   obtain ⟨p, hp, hc⟩ := atomicSequence_cls h a ha
@@ -371,9 +371,9 @@ theorem typed_value_instance_of (T : SType) (b : B) (hT : atomicBase? T = some b
 
 /-- the same for a list (named or not) of an atomic item type: every item is an instance of the
 item type's nearest builtin and of its base types -/
-theorem typed_value_list_instance_of (n : Option String) (item : SType) (b : B)
-    (hT : atomicBase? item = some b) (hb : b.isSpecial = false) (txt : String) (vs : List Atom)
-    (h : atomicSequence (.list n item) txt = .ok vs) :
+theorem typed_value_list_instance_of (valid : SType → String → Bool) (n : Option String) (item : SType)
+    (b : B) (hT : atomicBase? item = some b) (hb : b.isSpecial = false) (txt : String) (vs : List Atom)
+    (h : atomicSequence valid (.list n item) txt = .ok vs) :
     ∀ a ∈ vs, a.cls = b ∧ ∀ B' ∈ builtinAncestors item, a.instanceOf B' = true := by
   intro a ha
   obtain ⟨p, hp, hc⟩ := atomicSequence_cls h a ha
@@ -387,90 +387,46 @@ theorem typed_value_list_instance_of (n : Option String) (item : SType) (b : B)
   simp only [builtinAncestors, nearestB_atomic hT] at hB'
   simpa [B.derives] using hB'
 
-/-! ### decidable trigger predicates of the findings (computed by the driver as flags) -/
+/-! ### kernel-checked instances of the repaired decoder (all former decoder findings are fixed) -/
 
-mutual
-/-- a union member that `_iter_values` skips: a list (or a restriction of one) -/
-def skippedMember : SType → Bool
-  | .builtin _ => false
-  | .union _ ms => skippedAny ms
-  | .restr _ base _ => skippedMember base
-  | .list _ _ => true
-def skippedAny : List SType → Bool
-  | [] => false
-  | m :: ms => skippedMember m || skippedAny ms
-end
-
-/-- trigger of finding F20h: the type (or the item type of the list) is a union with a member that
-is a list -/
-def unionMemberSkipped : SType → Bool
-  | .builtin _ => false
-  | .restr _ base _ => unionMemberSkipped base
-  | .list _ item => unionMemberSkipped item
-  | .union _ ms => skippedAny ms
-
-mutual
-/-- the type with every facet removed -/
-def stripFacets : SType → SType
-  | .builtin b => .builtin b
-  | .restr n base _ => .restr n (stripFacets base) {}
-  | .list n item => .list n (stripFacets item)
-  | .union n ms => .union n (stripFacetsL ms)
-def stripFacetsL : List SType → List SType
-  | [] => []
-  | m :: ms => stripFacets m :: stripFacetsL ms
-end
-
-/-- trigger of finding F20j: the facets of a restricted union member decide the member selection for
-this text (the prototypes know the builtin class only, not the facets) -/
-def facetDecides (T : SType) (text : String) : Bool :=
-  T.protos.length > 1 && decode T text != decode (stripFacets T) text
-
-/-- the fixed F20g, kernel-checked: a list of a union is decoded item by item (`1 true zz` → three
-atoms; the pinned tree yielded six) and agrees with the specification -/
+/-- the fixed F20g: a list of a union is decoded item by item (`1 true zz` → three atoms; the pinned
+tree yielded six) and agrees with the specification -/
 theorem list_of_union_decoded_per_item :
     let u : SType := .union none [.builtin .int, .builtin .boolean, .builtin .string]
-    atomicSequence (.list none u) "1 true zz" = .ok [⟨.int, "1"⟩, ⟨.boolean, "true"⟩, ⟨.string, "zz"⟩] ∧
+    atomicSequence isValid (.list none u) "1 true zz" = .ok [⟨.int, "1"⟩, ⟨.boolean, "true"⟩, ⟨.string, "zz"⟩] ∧
     decode (.list none u) "1 true zz" = some [⟨.int, "1"⟩, ⟨.boolean, "true"⟩, ⟨.string, "zz"⟩] := by decide
 
-/-- the fixed F20i, kernel-checked: `1e5`, `inf`, `nan` in `union(xs:decimal, xs:double, xs:string)`
-are strings (`1e5` a double), as the XSD lexical spaces say -/
+/-- the fixed F20i: `1e5`, `inf`, `nan` in `union(xs:decimal, xs:double, xs:string)` -/
 theorem python_lexicals_rejected :
     let u : SType := .union none [.builtin .decimal, .builtin .double, .builtin .string]
-    ["1e5", "inf", "nan", "Infinity", "INF"].map (atomicSequence u) =
+    ["1e5", "inf", "nan", "Infinity", "INF"].map (atomicSequence isValid u) =
       [.ok [⟨.double, "1e5"⟩], .ok [⟨.string, "inf"⟩], .ok [⟨.string, "nan"⟩], .ok [⟨.string, "Infinity"⟩],
-       .ok [⟨.double, "INF"⟩]] ∧
-    ["1e5", "inf", "nan", "Infinity", "INF"].map (decode u) =
-      [some [⟨.double, "1e5"⟩], some [⟨.string, "inf"⟩], some [⟨.string, "nan"⟩], some [⟨.string, "Infinity"⟩],
-       some [⟨.double, "INF"⟩]] := by decide
+       .ok [⟨.double, "INF"⟩]] := by decide
 
-/-- F20h, kernel-checked: a union member that is a list is skipped by `iter_atomic_values`, so
-`1 2` in `union(list of xs:int, xs:string)` is decoded as one string -/
-theorem typed_value_union_member_skipped :
+/-- the fixed F20h: a LIST member of a union decodes its items (`1 2` in
+`union(list of xs:int, xs:string)` was the string `1 2`) -/
+theorem union_list_member_decoded :
     let u : SType := .union none [.list none (.builtin .int), .builtin .string]
-    atomicSequence u "1 2" = .ok [⟨.string, "1 2"⟩] ∧ decode u "1 2" = some [⟨.int, "1"⟩, ⟨.int, "2"⟩] ∧
-    unionMemberSkipped u = true := by decide
+    atomicSequence isValid u "1 2" = .ok [⟨.int, "1"⟩, ⟨.int, "2"⟩] ∧ decode u "1 2" = some [⟨.int, "1"⟩, ⟨.int, "2"⟩] ∧
+    atomicSequence isValid u "x y" = .ok [⟨.string, "x y"⟩] := by decide
 
-/-- F20j, kernel-checked: `300` in `union(restriction of xs:int with maxInclusive 100, xs:string)` is
-decoded by the `xs:int` prototype although the first member rejects it -/
-theorem typed_value_facets_ignored :
+/-- the fixed F20j: the facets of a restricted member decide (`300` in
+`union(xs:int with maxInclusive 100, xs:string)` was the `xs:int` 300) -/
+theorem union_member_facets_respected :
     let m : SType := .restr (some "{urn:t}myint") (.builtin .int) { maxInc := some 100 }
     let u : SType := .union none [m, .builtin .string]
-    atomicSequence u "300" = .ok [⟨.int, "300"⟩] ∧ decode u "300" = some [⟨.string, "300"⟩] ∧
-    facetDecides u "300" = true := by decide
+    atomicSequence isValid u "300" = .ok [⟨.string, "300"⟩] ∧ decode u "300" = some [⟨.string, "300"⟩] ∧
+    atomicSequence isValid u "7" = .ok [⟨.int, "7"⟩] := by decide
 
-/-- the fixed F20c, kernel-checked: `myint` = restriction of `xs:int`, `ilist` = list of `xs:int`:
-model and specification agree (the pinned tree gave `xs:decimal` values) -/
+/-- the fixed F20c: `myint` = restriction of `xs:int`, `ilist` = list of `xs:int` -/
 theorem derived_types_decoded_by_nearest_builtin :
     let myint : SType := .restr (some "{urn:t}myint") (.builtin .int) {}
-    atomicSequence myint "5" = .ok [⟨.int, "5"⟩] ∧ decode myint "5" = some [⟨.int, "5"⟩] ∧
-    atomicSequence (.list (some "{urn:t}ilist") myint) "1 2" = .ok [⟨.int, "1"⟩, ⟨.int, "2"⟩] ∧
-    atomicSequence (.union none [myint, .builtin .string]) "7" = .ok [⟨.int, "7"⟩] := by decide
+    atomicSequence isValid myint "5" = .ok [⟨.int, "5"⟩] ∧ decode myint "5" = some [⟨.int, "5"⟩] ∧
+    atomicSequence isValid (.list (some "{urn:t}ilist") myint) "1 2" = .ok [⟨.int, "1"⟩, ⟨.int, "2"⟩] := by decide
 
-/-- the fixed F20a: `false` and `0` decode to `false` (the pinned tree's `bool(text)` gave `true`),
-and the model agrees with the specification on all four boolean lexicals with surrounding space -/
+/-- the fixed F20a -/
 theorem boolean_decoding :
-    ["true", "false", "1", "0", " false "].map (fun t => atomicSequence (.builtin .boolean) t) =
+    ["true", "false", "1", "0", " false "].map (fun t => atomicSequence isValid (.builtin .boolean) t) =
       ["true", "false", "1", "0", " false "].map (fun t => match decode (.builtin .boolean) t with
         | some v => TV.ok v | none => .err) := by decide
 
@@ -508,96 +464,123 @@ theorem isList_atomic : ∀ {T : SType} {b : B}, atomicBase? T = some b → T.is
 
 /-- **typed value = specification value, atomic types.**  For every atomic type `T` (a builtin or any
 chain of restrictions, facets included) and every text that is at most one token with optional
-surrounding white space (the shape of every valid literal of a non-string type): if the text is a
-valid literal with value `vs` by the XSD lexical mapping (`Spec.decode`), `get_atomic_sequence`
-yields exactly `vs` — same class, same value. -/
-theorem typed_value_eq_spec (T : SType) (b : B) (hT : atomicBase? T = some b)
+surrounding white space: if the text is a valid literal with value `vs` by the XSD lexical mapping
+(`Spec.decode`), `get_atomic_sequence` yields exactly `vs` — same class, same value. -/
+theorem typed_value_eq_spec (valid : SType → String → Bool) (T : SType) (b : B) (hT : atomicBase? T = some b)
     (s : String) (h1 : (splitWs s).length ≤ 1)
-    (vs : List Atom) (h : decode T s = some vs) : atomicSequence T s = .ok vs := by
+    (vs : List Atom) (h : decode T s = some vs) : atomicSequence valid T s = .ok vs := by
   obtain ⟨a, rfl, ha⟩ := decode_atomic hT h
   have hpy := pyDecode_of_xsdLex b s h1 a ha
-  simp [atomicSequence, protos_atomic hT, isList_atomic hT, atomicLoop, decodeAll, firstProto, hpy]
+  simp [atomicSequence, memberProtos_atomic hT, isList_atomic hT, atomicLoop, decodeAll, firstMember, tryMember, hpy]
 
-/-- all members are builtins -/
-def builtinMembers : List SType → Option (List B)
+/-- every member is an atomic type (a builtin or a chain of restrictions, WITH facets) -/
+def atomicMembers : List SType → Option (List (SType × B))
   | [] => some []
-  | .builtin b :: ms => (builtinMembers ms).map (b :: ·)
-  | _ :: _ => none
+  | m :: ms => match atomicBase? m, atomicMembers ms with
+    | some b, some r => some ((m, b) :: r)
+    | _, _ => none
 
-theorem iterValuesL_builtins : ∀ {ms : List SType} {bs : List B}, builtinMembers ms = some bs →
-    SType.iterValuesL 2 ms = bs
-  | [], bs, h => by simp [builtinMembers] at h; subst h; rfl
-  | .builtin b :: ms, bs, h => by
-    simp only [builtinMembers, Option.map_eq_some_iff] at h
-    obtain ⟨bs', hb, rfl⟩ := h
-    simp [SType.iterValuesL, SType.iterValues, iterValuesL_builtins hb]
-  | .restr _ _ _ :: _, _, h => by simp [builtinMembers] at h
-  | .list _ _ :: _, _, h => by simp [builtinMembers] at h
-  | .union _ _ :: _, _, h => by simp [builtinMembers] at h
+theorem iterMembers_atomic_depth : ∀ {t : SType} {b : B} (d : Nat), d ≤ 15 → atomicBase? t = some b →
+    SType.iterMembers d t = [(none, b)]
+  | .builtin b', b, d, hd, h => by
+    simp [atomicBase?] at h; subst h
+    have : ¬ d > 15 := by omega
+    simp [SType.iterMembers, this]
+  | .restr n base f, b, d, hd, h => by
+    simp only [atomicBase?] at h; simp only [SType.iterMembers]; exact iterMembers_atomic_depth d hd h
+  | .list n i, b, _, _, h => by simp [atomicBase?] at h
+  | .union n ms, b, _, _, h => by simp [atomicBase?] at h
 
-/-- the prototype loop on one literal = "the first member type, in declaration order, in which the
-literal is valid" (XSD 1.1 Part 2 §2.4.1.3), for builtin members and a one-token literal -/
-theorem firstProto_eq_decodeFirst : ∀ {ms : List SType} {bs : List B}, builtinMembers ms = some bs →
-    ∀ (s : String), (splitWs s).length ≤ 1 → decodeFirst ms s = (firstProto bs s).map ([·])
-  | [], _, hm, s, _ => by simp [builtinMembers] at hm; subst hm; rfl
-  | .builtin b :: ms, bs, hm, s, h1 => by
-    simp only [builtinMembers, Option.map_eq_some_iff] at hm
-    obtain ⟨bs', hb, rfl⟩ := hm
-    simp only [decodeFirst, decode, firstProto, pyDecode_eq_xsdLex b s h1]
-    cases xsdLex b (normalize b s) with
-    | some a => rfl
-    | none => exact firstProto_eq_decodeFirst hb s h1
-  | .restr _ _ _ :: _, _, hm, _, _ => by simp [builtinMembers] at hm
-  | .list _ _ :: _, _, hm, _, _ => by simp [builtinMembers] at hm
-  | .union _ _ :: _, _, hm, _, _ => by simp [builtinMembers] at hm
+theorem iterMembersL_atomic : ∀ {ms : List SType} {mb : List (SType × B)}, atomicMembers ms = some mb →
+    SType.iterMembersL 2 ms = mb.map fun p => (some p.1, p.2)
+  | [], mb, h => by simp [atomicMembers] at h; subst h; rfl
+  | m :: ms, mb, h => by
+    simp only [atomicMembers] at h
+    cases hm : atomicBase? m with
+    | none => rw [hm] at h; simp at h
+    | some b =>
+      cases hr : atomicMembers ms with
+      | none => rw [hm, hr] at h; simp at h
+      | some r =>
+        rw [hm, hr] at h
+        simp only [Option.some.injEq] at h
+        subst h
+        simp [SType.iterMembersL, iterMembers_atomic_depth 2 (by omega) hm, iterMembersL_atomic hr]
 
-/-- the item loop = the per-item specification, for items that are single tokens -/
-theorem decodeAll_eq_decodeItems {ms : List SType} {bs : List B} (hm : builtinMembers ms = some bs) :
+/-- the member loop on one literal = "the first member type, in declaration order, in which the
+literal is valid" (XSD 1.1 Part 2 §2.4.1.3) — for atomic members with their facets, a one-token
+literal, and the schema processor's `is_valid` -/
+theorem firstMember_eq_decodeFirst : ∀ {ms : List SType} {mb : List (SType × B)}, atomicMembers ms = some mb →
+    ∀ (s : String), (splitWs s).length ≤ 1 →
+      firstMember isValid (mb.map fun p => (some p.1, p.2)) s = decodeFirst ms s
+  | [], mb, h, s, _ => by simp [atomicMembers] at h; subst h; rfl
+  | m :: ms, mb, h, s, h1 => by
+    simp only [atomicMembers] at h
+    cases hm : atomicBase? m with
+    | none => rw [hm] at h; simp at h
+    | some b =>
+      cases hr : atomicMembers ms with
+      | none => rw [hm, hr] at h; simp at h
+      | some r =>
+        rw [hm, hr] at h
+        simp only [Option.some.injEq] at h
+        subst h
+        simp only [List.map_cons, firstMember, tryMember, isValid, decodeFirst, isList_atomic hm]
+        cases hd : decode m s with
+        | none => simpa using firstMember_eq_decodeFirst hr s h1
+        | some vs =>
+          obtain ⟨a, rfl, ha⟩ := decode_atomic hm hd
+          simp [pyDecode_of_xsdLex b s h1 a ha]
+
+theorem decodeAll_eq_decodeItems {ms : List SType} {mb : List (SType × B)} (hm : atomicMembers ms = some mb) :
     ∀ (toks : List String), (∀ w ∈ toks, (splitWs w).length ≤ 1) →
-      decodeItems (decodeFirst ms) toks = decodeAll bs toks
+      decodeAll isValid (mb.map fun p => (some p.1, p.2)) toks = decodeItems (decodeFirst ms) toks
   | [], _ => rfl
   | w :: ws, htok => by
-    simp only [decodeItems, decodeAll, firstProto_eq_decodeFirst hm w (htok w List.mem_cons_self),
+    simp only [decodeItems, decodeAll, firstMember_eq_decodeFirst hm w (htok w List.mem_cons_self),
       decodeAll_eq_decodeItems hm ws (fun x hx => htok x (List.mem_cons_of_mem _ hx))]
-    cases firstProto bs w <;> cases decodeAll bs ws <;> simp
+    cases decodeFirst ms w <;> cases decodeItems (decodeFirst ms) ws <;> rfl
 
-/-- **typed value = specification value, unions of builtins** — FULL (since fixes F20a, F20i):
-for a union (named or not) with at least one member, all members builtins, and every one-token
-text: `get_atomic_sequence` yields the value in the FIRST member type, in declaration order, in which
-the literal is valid, and raises exactly when no member accepts it. -/
-theorem typed_value_eq_spec_union (n : Option String) (ms : List SType) (b : B) (bs : List B)
-    (hm : builtinMembers ms = some (b :: bs)) (s : String) (h1 : (splitWs s).length ≤ 1) :
-    atomicSequence (.union n ms) s =
+/-- **typed value = specification value, unions** — FULL (fixes F20a, F20i, F20j): for a union (named
+or not) with at least one member whose members are atomic types — builtins or restrictions WITH
+facets — and every one-token text: `get_atomic_sequence` yields the value in the FIRST member type,
+in declaration order, in which the literal is valid, and raises exactly when no member accepts it. -/
+theorem typed_value_eq_spec_union (n : Option String) (ms : List SType) (p : SType × B) (mb : List (SType × B))
+    (hm : atomicMembers ms = some (p :: mb)) (s : String) (h1 : (splitWs s).length ≤ 1) :
+    atomicSequence isValid (.union n ms) s =
       match decode (.union n ms) s with
       | some vs => .ok vs
       | none => .err := by
-  have hprotos : (SType.union n ms).protos = b :: bs := by
-    simp [SType.protos, SType.iterValues, iterValuesL_builtins hm]
-  simp only [decode, firstProto_eq_decodeFirst hm s h1, atomicSequence, hprotos, SType.isList, atomicLoop,
-    Bool.false_eq_true, if_false, decodeAll]
-  cases firstProto (b :: bs) s <;> rfl
+  have hprotos : (SType.union n ms).memberProtos = (p :: mb).map fun q => (some q.1, q.2) := by
+    simp [SType.memberProtos, SType.iterMembers, iterMembersL_atomic hm]
+  have hf := firstMember_eq_decodeFirst hm s h1
+  simp only [decode, atomicSequence, hprotos, SType.isList, atomicLoop, Bool.false_eq_true, if_false,
+    List.map_cons, decodeAll] at hf ⊢
+  rw [hf]
+  cases decodeFirst ms s <;> simp
 
-/-- **typed value = specification value, lists of a union of builtins** — FULL (since fix F20g):
-EVERY text is decoded item by item, each item by the first member that accepts it; the decoder
+/-- **typed value = specification value, lists of a union** — FULL (fix F20g): EVERY text is decoded
+item by item, each item by the first member (atomic, with facets) that accepts it; the decoder
 raises exactly when some item is valid for no member. -/
-theorem typed_value_eq_spec_list_of_union (n m : Option String) (ms : List SType) (b : B) (bs : List B)
-    (hm : builtinMembers ms = some (b :: bs)) (s : String) :
-    atomicSequence (.list n (.union m ms)) s =
+theorem typed_value_eq_spec_list_of_union (n m : Option String) (ms : List SType) (p : SType × B)
+    (mb : List (SType × B)) (hm : atomicMembers ms = some (p :: mb)) (s : String) :
+    atomicSequence isValid (.list n (.union m ms)) s =
       match decode (.list n (.union m ms)) s with
       | some vs => .ok vs
       | none => .err := by
-  have hprotos : (SType.list n (.union m ms)).protos = b :: bs := by
-    simp [SType.protos, SType.iterValues, iterValuesL_builtins hm]
-  simp only [decode, atomicSequence, hprotos, SType.isList, atomicLoop, if_true]
+  have hprotos : (SType.list n (.union m ms)).memberProtos = (p :: mb).map fun q => (some q.1, q.2) := by
+    simp [SType.memberProtos, SType.iterMembers, iterMembersL_atomic hm]
   have := decodeAll_eq_decodeItems hm (splitWs s) (fun w hw => token_single s w hw)
-  show _ = match decodeItems (decodeFirst ms) (splitWs s) with | some vs => TV.ok vs | none => TV.err
+  simp only [List.map_cons] at this hprotos
+  simp only [decode, atomicSequence, hprotos, SType.isList, atomicLoop, if_true]
   rw [this]
-  cases decodeAll (b :: bs) (splitWs s) <;> rfl
+  show _ = match decodeItems (decodeFirst ms) (splitWs s) with | some vs => TV.ok vs | none => TV.err
+  cases decodeItems (decodeFirst ms) (splitWs s) <;> rfl
 
 /-- the item loop of `get_atomic_sequence` on a list of an atomic item type whose items are all valid -/
-theorem decodeAll_valid (item : SType) (b : B) (hT : atomicBase? item = some b) :
+theorem decodeAll_valid (valid : SType → String → Bool) (item : SType) (b : B) (hT : atomicBase? item = some b) :
     ∀ (toks : List String), (∀ w ∈ toks, (splitWs w).length ≤ 1) →
-    ∀ (vs : List Atom), decodeItems (decode item) toks = some vs → decodeAll [b] toks = some vs
+    ∀ (vs : List Atom), decodeItems (decode item) toks = some vs → decodeAll valid [(none, b)] toks = some vs
   | [], _, vs, h => by simp [decodeItems] at h; subst h; rfl
   | w :: ws, htok, vs, h => by
     simp only [decodeItems] at h
@@ -612,28 +595,26 @@ theorem decodeAll_valid (item : SType) (b : B) (hT : atomicBase? item = some b) 
         subst h
         obtain ⟨a, rfl, ha⟩ := decode_atomic hT hw
         have hpy := pyDecode_of_xsdLex b w (htok w List.mem_cons_self) a ha
-        have ih := decodeAll_valid item b hT ws (fun x hx => htok x (List.mem_cons_of_mem _ hx)) r hr
-        simp [decodeAll, firstProto, hpy, ih]
+        have ih := decodeAll_valid valid item b hT ws (fun x hx => htok x (List.mem_cons_of_mem _ hx)) r hr
+        simp [decodeAll, firstMember, tryMember, hpy, ih]
 
 /-- **typed value = specification value, list types.**  For every list (named or not) of an atomic
-item type and EVERY text: if all items are valid literals of the item type (split on XSD white
-space, each item decoded by the item type's lexical mapping, facets included) with values `vs`,
+item type and EVERY text: if all items are valid literals of the item type with values `vs`,
 `get_atomic_sequence` yields exactly `vs`. -/
-theorem typed_value_eq_spec_list (n : Option String) (item : SType) (b : B)
+theorem typed_value_eq_spec_list (valid : SType → String → Bool) (n : Option String) (item : SType) (b : B)
     (hT : atomicBase? item = some b) (s : String) (vs : List Atom)
-    (h : decode (.list n item) s = some vs) : atomicSequence (.list n item) s = .ok vs := by
+    (h : decode (.list n item) s = some vs) : atomicSequence valid (.list n item) s = .ok vs := by
   simp only [decode] at h
-  have hitems := decodeAll_valid item b hT (splitWs s) (fun w hw => token_single s w hw) vs h
-  simp [atomicSequence, protos_list_atomic hT, SType.isList, atomicLoop, hitems]
+  have hitems := decodeAll_valid valid item b hT (splitWs s) (fun w hw => token_single s w hw) vs h
+  simp [atomicSequence, memberProtos_list_atomic hT, SType.isList, atomicLoop, hitems]
 
 /-- TEST: the hypotheses of the value-level theorems hold on non-trivial inputs -/
 example : decode (.restr (some "d") (.builtin .decimal) {}) " +01.50 " = some [⟨.decimal, "1.5"⟩] ∧
     (splitWs " +01.50 ").length ≤ 1 ∧
-    decode (.list none (.builtin .unsignedByte)) " 1  255\n7 " = some [⟨.unsignedByte, "1"⟩, ⟨.unsignedByte, "255"⟩, ⟨.unsignedByte, "7"⟩] ∧
-    builtinMembers [.builtin .byte, .builtin .boolean, .builtin .token] = some [.byte, .boolean, .token] ∧
-    decode (.union none [.builtin .byte, .builtin .boolean, .builtin .token]) " 300 " = some [⟨.token, "300"⟩] ∧
-    decode (.union none [.builtin .byte, .builtin .boolean]) "300" = none ∧
-    atomicSequence (.union none [.builtin .byte, .builtin .boolean]) "300" = .err := by
+    (atomicMembers [.restr none (.builtin .byte) { maxInc := some 100 }, .builtin .boolean, .builtin .token]).isSome = true ∧
+    decode (.union none [.restr none (.builtin .byte) { maxInc := some 100 }, .builtin .boolean, .builtin .token]) " 120 " =
+      some [⟨.token, "120"⟩] ∧
+    atomicSequence isValid (.union none [.builtin .byte, .builtin .boolean]) "300" = .err := by
   decide
 
 /-- **`instance of` is closed under base types** (`element(*, T)` / `attribute(*, T)` for the
